@@ -76,6 +76,13 @@ def build_list(rng, tr):
             pats.append('|'.join(group))
             need.add('SPLIT')
         singles.extend(group)
+    if rng.random() < 0.15:
+        # an empty pattern denotes nothing and changes nothing, wherever it stands (list element, SPLIT alternative)
+        if 'SPLIT' in need and rng.random() < 0.5:
+            i_ = rng.randrange(len(pats))
+            pats[i_] = rng.choice(('|' + pats[i_], pats[i_] + '|', pats[i_].replace('|', '||', 1)))
+        else:
+            pats.insert(rng.randrange(len(pats) + 1), '')
     excl = []
     # (whether a relative exclusion applies to the absolute results of an absolute pattern is not stated: no exclusions then)
     for _ in range(rng.choice((0, 0, 1, 1, 2)) if not use_abs else 0):
